@@ -610,7 +610,32 @@ def _emnist(check: Check, cf: ConstFolder):
             check.ob('R-OFFSET', fi, f'len == {L}: client_id[{a}:{b}]', ok,
                      'the 4-digit writer number sits 7..3 characters before the end in both documented id formats '
                      '("...f[4 digits]_[2 digits]")')
-  check.floor('R-OFFSET', 'writer-id slices', n, 2)
+  if n == 0:
+    # located by a regular expression instead of by position: it has to be anchored (fullmatch or ^...$), an unanchored search takes
+    # the first "f + 4 digits", which can lie inside the hash part of the id
+    rx_calls = [c for _, c in ff.calls() if isinstance(c.func, ast.Attribute) and c.func.attr in ('search', 'match', 'fullmatch', 'findall')]
+    judged = False
+    for c in rx_calls:
+      pats = []
+      for v in ff.expand(c.func.value) + ([c.args[0]] if ff.ext(c.func) in ('re.search', 're.match', 're.fullmatch') and c.args else []):
+        r_ = repo.resolve(fi.scope, v) if isinstance(v, (ast.Name, ast.Attribute)) else None
+        vals = [b.value for b in r_.bindings] if (r_ is not None and r_.kind == 'local') else [v]
+        for w in vals:
+          if isinstance(w, ast.Call) and w.args and isinstance(w.args[0], ast.Constant) and isinstance(w.args[0].value, (str, bytes)):
+            pats.append(w.args[0].value)
+          elif isinstance(w, ast.Constant) and isinstance(w.value, (str, bytes)):
+            pats.append(w.value)
+      for p_ in pats:
+        ps = p_.decode('latin1') if isinstance(p_, bytes) else p_
+        anchored = c.func.attr == 'fullmatch' or (ps.startswith('^') or c.func.attr == 'match') and (ps.endswith('$') or ps.endswith('\\Z'))
+        judged = True
+        check.ob('R-OFFSET.anchored', fi, f'{c.func.attr}({ps!r})', anchored,
+                 'the writer number is taken from a fixed place of the id; an unanchored regular-expression search returns the first '
+                 '"f + 4 digits" anywhere in the id, e.g. inside its hash prefix', node=c)
+    if not judged:
+      check.floor('R-OFFSET', 'writer-id slices', n, 2)
+  else:
+    check.floor('R-OFFSET', 'writer-id slices', n, 2)
   # documented range test is a closed interval
   ok = any(isinstance(x, ast.BoolOp) and all(isinstance(v, ast.Compare) and isinstance(v.ops[0], ast.LtE) for v in x.values)
            for x in ast.walk(fi.node))
